@@ -329,7 +329,8 @@ def scatter (n : Nat) (nonrf rf : List Nat) (x y : Vec α) : Vec α :=
 
 /-- `SolveNewmark(m, b, k, h, rf).tsolve(F, d0, v0)` on all `n` rows: `(d, v, a)` as lists of full-size columns.
 rf rows: `d = k_rf⁻¹ F_rf` column by column, `v = a = 0`, initial conditions ignored; the other rows: `run` on the
-non-rf partition.  `none` = `IndexError` (a single time step with at least one non-rf row). -/
+non-rf partition.  Nonlinear callbacks: at step 0 they are handed the full-size rows, afterwards the non-rf rows only
+(what the code does; the docstring advises against combining `rf` with nonlinear terms).  `none` = `IndexError` (a single time step with at least one non-rf row). -/
 def tsolveRf [OfNat α 1] (n : Nat) (rf : List Nat) (M : Option (Mat α)) (B K : Mat α) (h : α)
     (solveWith : Mat α → Vec α → Vec α) (nl : Sys (Vec α) α → Nat → List (Vec α) → Vec α)
     (F : List (Vec α)) (d0 v0 : Vec α) : Option (List (Vec α) × List (Vec α) × List (Vec α)) :=
@@ -342,7 +343,14 @@ def tsolveRf [OfNat α 1] (n : Nat) (rf : List Nat) (M : Option (Mat α)) (B K :
       drf.map fun _ => scatter n nonrf rf znr zrf)
   else
     let S := matSysOpt (M.map (pickMat nonrf)) (pickMat nonrf B) (pickMat nonrf K) h solveWith
-    match run S (nl S) (F.map (pick nonrf)) (pick nonrf d0) (pick nonrf v0) with
+    -- `_init_dva` calls the callbacks for step 0 with the FULL-size array `d` (rf rows included: their static
+    -- displacements; column -1 holds `u₋₁` on the non-rf rows and the last static column on the rf rows), the loop
+    -- in `tsolve` calls them with `D = d[kdof]` (non-rf rows only) - transcribed as the code has it
+    let nl0 : Nat → List (Vec α) → Vec α := fun j hist =>
+      match j, hist with
+      | 0, [x, u] => nl S 0 [scatter n nonrf rf x (drf.headD zrf), scatter n nonrf rf u (drf.getLastD zrf)]
+      | _, _ => nl S j hist
+    match run S nl0 (F.map (pick nonrf)) (pick nonrf d0) (pick nonrf v0) with
     | none => none
     | some hh =>
       some (List.zipWith (scatter n nonrf rf) hh.d drf, hh.v.map fun x => scatter n nonrf rf x zrf,
